@@ -142,26 +142,6 @@ Proof. apply map_ext. apply gen_fold_keypfx. Qed.
 (* ------------------------------------------------------------------ *)
 (* the label walk shared by writeWireName and WireNameEqualsPresentation *)
 
-Fixpoint parse_loop (fuel : nat) (rest : bytes) : option (list label) :=
-  match fuel with
-  | O => None
-  | S fuel' =>
-      match rest with
-      | [] => None
-      | c :: r =>
-          if c =? 0 then match r with [] => Some [] | _ :: _ => None end
-          else if negb (N.land c 192 =? 0) then None
-          else if len r <? c then None
-          else match parse_loop fuel' (skipn (N.to_nat c) r) with
-               | Some ls => Some (firstn (N.to_nat c) r :: ls)
-               | None => None
-               end
-      end
-  end.
-
-Definition parse_wire (w : bytes) : option (list label) :=
-  if (len w =? 0) || (255 <? len w) then None else parse_loop (S (length w)) w.
-
 Definition wwn_out (ls : list label) (wrote : bool) : bytes :=
   match ls with
   | [] => if wrote then [] else [46]
